@@ -65,7 +65,7 @@ func (s *Sim) checkPerioGaps(ctx *StepCtx) {
 			delete(m.perioSeen, k)
 		}
 	}
-	clean := s.cfg.KernLatency == 0 && !m.perioTaint && s.firedM["dp.untagged"] == 0 && !s.free && !s.stopped1 && !s.tearing
+	clean := s.heldReq == nil && !s.heldJudge && s.cfg.KernLatency == 0 && !m.perioTaint && s.firedM["dp.untagged"] == 0 && !s.free && !s.stopped1 && !s.tearing
 	for _, r := range ctx.Reqs {
 		if r.Fault {
 			clean = false
@@ -157,13 +157,23 @@ func (s *Sim) checkPerio(ctx *StepCtx) {
 	if ctx.Kind == "deliver" {
 		return // registrations change inside the step: judged at the next idle stretch
 	}
-	reg := m.registered()
+	cur := m.registered()
+	reg := cur
+	if s.heldJudge && s.heldReg != nil {
+		// the first tick of this step was started when the held query was made: it is
+		// judged against the registrations of that moment
+		reg = s.heldReg
+	}
 	periodOf := map[RuleKey]time.Duration{}
-	for p, set := range reg {
-		for k := range set {
-			periodOf[k] = p
+	index := func() {
+		periodOf = map[RuleKey]time.Duration{}
+		for p, set := range reg {
+			for k := range set {
+				periodOf[k] = p
+			}
 		}
 	}
+	index()
 	describe := func() []string {
 		var want []string
 		for p, set := range reg {
@@ -181,6 +191,10 @@ func (s *Sim) checkPerio(ctx *StepCtx) {
 	perPeriod := map[time.Duration]int{}
 	i := 0
 	for i < len(reqs) {
+		if i > 0 && s.heldJudge {
+			reg = cur // every later tick: today's registrations
+			index()
+		}
 		first := reqs[i]
 		if first.Fault {
 			// refused: go-upf gives this tick up (whatever it had queried of it already)
@@ -254,7 +268,7 @@ func (s *Sim) checkPerio(ctx *StepCtx) {
 			s.probe("perio.tick.3batches", 1)
 		}
 	}
-	if ctx.Kind == "adv" && s.cfg.KernLatency == 0 {
+	if ctx.Kind == "adv" && s.cfg.KernLatency == 0 && s.heldReq == nil {
 		d := s.since() - ctx.t0
 		for p, set := range reg {
 			if len(set) == 0 {
